@@ -41,11 +41,11 @@ open IceModel.AgentCore
 @[simp] theorem core_mk (cfg tieBreaker controlling started closed connState localUfrag localPwd remoteUfrag remotePwd
     locals remotes checklist nextPairID nextUid nextTid tag pending selected selStart nominatedPair lastNomination answeredNomination
     lastSeen checkingStart checkingTimeout forcePending nextTick caches rx connBytesSent connBytesRecv
-    onConnectedFired generation nomIssued) :
+    onConnectedFired generation nomIssued lastRenomTime nomCounter) :
     (Agent.mk cfg tieBreaker controlling started closed connState localUfrag localPwd remoteUfrag remotePwd
     locals remotes checklist nextPairID nextUid nextTid tag pending selected selStart nominatedPair lastNomination answeredNomination
     lastSeen checkingStart checkingTimeout forcePending nextTick caches rx connBytesSent connBytesRecv
-    onConnectedFired generation nomIssued).core = ⟨cfg, tieBreaker, tag, controlling, lastNomination, localUfrag, localPwd,
+    onConnectedFired generation nomIssued lastRenomTime nomCounter).core = ⟨cfg, tieBreaker, tag, controlling, lastNomination, localUfrag, localPwd,
       remoteUfrag, remotePwd, started, closed⟩ := rfl
 
 @[simp] theorem core_eta (y : Agent) : Core.mk y.cfg y.tieBreaker y.tag y.controlling y.lastNomination y.localUfrag
@@ -157,6 +157,52 @@ macro "frame_cases" : tactic =>
 @[simp] theorem core_nominate (a : Agent) (now : Nat) (p : Pair) : (a.nominate now p).1.core = a.core := by
   unfold Agent.nominate
   split <;> simp
+
+/-! ### automatic renomination -/
+@[simp] theorem core_keepAliveAll (a : Agent) (now : Nat) : (a.keepAliveAll now).1.core = a.core := by
+  unfold Agent.keepAliveAll
+  refine IceProofs.List.foldl_inv (fun acc : Agent × List Out => acc.1.core = a.core) _ _ _ rfl ?_
+  intro acc id h
+  obtain ⟨b, o⟩ := acc
+  simp only at h ⊢
+  split
+  · exact h
+  · split
+    · exact h
+    · split
+      · split <;> simp [h]
+      · split <;> simp [h]
+
+@[simp] theorem core_autoIssue (a : Agent) (now : Nat) (l r : Cand) : (a.autoIssue now l r).1.core = a.core := by
+  unfold Agent.autoIssue
+  split
+  · rfl
+  · split
+    · rfl
+    · split
+      · rfl
+      · simp
+
+@[simp] theorem core_autoCheck (a : Agent) (now : Nat) : (a.autoCheck now).1.core = a.core := by
+  unfold Agent.autoCheck
+  split
+  · rfl
+  · split
+    · rfl
+    · split
+      · rfl
+      · split
+        · split
+          · rw [core_autoIssue]; rfl
+          · rfl
+        · rfl
+
+@[simp] theorem core_autoRenom (a : Agent) (now : Nat) : (a.autoRenom now).1.core = a.core := by
+  unfold Agent.autoRenom
+  simp only []
+  split
+  · rw [core_autoCheck, core_keepAliveAll]
+  · rw [core_autoCheck]
 
 @[simp] theorem core_contactCandidates (a : Agent) (now : Nat) : (a.contactCandidates now).1.core = a.core := by
   unfold Agent.contactCandidates
